@@ -193,8 +193,11 @@ def time_ctors(res, facts):
             v = M.view(facts, b)
             rt = M.Normalizer(facts, keep=[]).norm(v.return_term())
             if b["name"] == "default":
+                from . import c14
+                ck = c14.ctor_keys(facts, b)
                 t0 = M.mk_field(M.mk_field(rt, "0"), "0")
-                ok = t0 == M.T("const", key)
+                # interpreted (the key may come from a constant of a private trait or a helper); the literal form as second opinion
+                ok = (ck[0] == {key}) if ck is not None else (t0 == M.T("const", key))
             else:
                 ok = rt == M.T("field", "0", (M.T("field", "0", (M.T("param", 1),)),))
             res.oblige(ok)
